@@ -67,6 +67,9 @@ def convert(input_image_stream, output_image_stream):
 
     for ii in range(getbit(pictyp, 7) + 1):
         lines = ord(iotostr(f.read(1)))
+        if lines != 192:
+            debug("page {} holds {} lines instead of 192".format(ii, lines))
+            sys.exit(1)
         for jj in range(lines):
             u = 0
             y = 0
